@@ -23,25 +23,74 @@ CONF = ['absent', 'none', 'value', 'raise_val', 'raise_type_inner', 'attr_attrer
         'attr_other', 'raise_attrerr_inner', 'value_falsy']
 HOOK = ['none', 'v', 'raise', 'falsy']
 ALT = ['absent', 'value', 'none_pos', 'value_kw', 'none_kw']
-ADAPT = ['std', 'c_none', 'c_value', 'c_raise']
+# how the interface gets its __adapt__: the standard one ('std'; 'std+method'
+# = with an unrelated interfacemethod, which also creates a custom metaclass),
+# or a custom one defined via interfacemethod on the interface itself, on its
+# base ('inh'), on its base while the interface defines another interfacemethod
+# ('inh+method'), or on both with the child overriding ('override')
+ADAPT = ['std', 'std+method'] + [k + s for k in ('c_none', 'c_value', 'c_raise')
+                                 for s in ('', ':inh', ':inh+method', ':override')]
 PROVIDED = ['no', 'class', 'direct']
 
 
 def make_iface(adapt):
     if adapt == 'std':
         return InterfaceClass('I', (Interface,), {'__module__': wmod()})
+    if adapt == 'std+method':
+        class I(Interface):
+            __module__ = wmod()
 
-    class I(Interface):
-        __module__ = wmod()
+            @interfacemethod
+            def helper(self):
+                return 1
+        return I
+    adapt, _, shape = adapt.partition(':')
 
-        @interfacemethod
-        def __adapt__(self, obj):
-            LOG.append('adapt')
-            if adapt == 'c_none':
-                return None
-            if adapt == 'c_value':
-                return 'ADAPTED'
-            raise Boom('adapt')
+    def custom(self, obj):
+        LOG.append('adapt')
+        if adapt == 'c_none':
+            return None
+        if adapt == 'c_value':
+            return 'ADAPTED'
+        raise Boom('adapt')
+
+    def shadowed(self, obj):
+        LOG.append('adapt-of-base')
+        return 'BASE-ADAPTED'
+
+    if shape == 'override':
+        class IB(Interface):
+            __module__ = wmod()
+
+            @interfacemethod
+            def __adapt__(self, obj):
+                return shadowed(self, obj)
+    else:
+        class IB(Interface):
+            __module__ = wmod()
+
+            @interfacemethod
+            def __adapt__(self, obj):
+                return custom(self, obj)
+    if not shape:
+        return IB
+    if shape == 'inh':
+        class I(IB):
+            __module__ = wmod()
+    elif shape == 'inh+method':
+        class I(IB):
+            __module__ = wmod()
+
+            @interfacemethod
+            def helper(self):
+                return 1
+    else:
+        class I(IB):
+            __module__ = wmod()
+
+            @interfacemethod
+            def __adapt__(self, obj):
+                return custom(self, obj)
     return I
 
 
@@ -110,6 +159,7 @@ def make_hook(kind, i, I, obj):
 
 
 def expected(conf, provided, hooks, alt, adapt):
+    adapt = 'std' if adapt.startswith('std') else adapt.partition(':')[0]
     lg = []
     if conf in ('none', 'value', 'raise_val', 'raise_type_inner', 'raise_attrerr_inner', 'value_falsy'):
         lg.append('conform')
